@@ -97,6 +97,7 @@ func (r *Reconnector) Schedule(addr string) {
 // attemptReconnect attempts to reconnect to the given address.
 func (r *Reconnector) attemptReconnect(addr string) {
 	verifhook.At("reconnect.attempt.enter", r, addr)
+	defer verifhook.At("reconnect.attempt.exit", r, addr)
 	r.mu.Lock()
 	state, exists := r.states[addr]
 	if !exists || r.closed {
